@@ -2,6 +2,7 @@ package checks
 
 import (
 	"fmt"
+	"github.com/verily-src/fhirpath-go/fhirpath/verifh/ftab"
 	"reflect"
 	"sort"
 	"strings"
@@ -11,7 +12,6 @@ import (
 	bcrpb "github.com/google/fhir/go/proto/google/fhir/proto/r4/core/resources/bundle_and_contained_resource_go_proto"
 	"github.com/verily-src/fhirpath-go/fhirpath"
 	"github.com/verily-src/fhirpath-go/fhirpath/compopts"
-	"github.com/verily-src/fhirpath-go/fhirpath/internal/funcs"
 	"github.com/verily-src/fhirpath-go/fhirpath/system"
 	"github.com/verily-src/fhirpath-go/fhirpath/verifh/core"
 	"github.com/verily-src/fhirpath-go/fhirpath/verifh/lib"
@@ -185,7 +185,7 @@ func c03Programs() []string {
 		"Observation.value.value.round()", "Observation.value.value + 1", "Observation.value > 1 'mm[Hg]'", "Patient.telecom.rank.sum()", "Patient.telecom.rank > 1",
 	}
 	// every function of both tables with specification-typed arguments
-	tbl := funcs.AddExperimentalFuncs(funcs.Clone())
+	tbl := ftab.Table(true)
 	var names []string
 	for k := range tbl {
 		names = append(names, k)
@@ -200,7 +200,7 @@ func c03Programs() []string {
 			sig = specSig{recv: "Patient.name"}
 		}
 		fn := tbl[name]
-		for n := fn.MinArity; n <= fn.MaxArity && n <= 3; n++ {
+		for n := fn.Min; n <= fn.Max && n <= 3; n++ {
 			ps = append(ps, callSrc(sig.recv, name, fillArgs(sig, n)))
 			ps = append(ps, callSrc("%c", name, fillArgs(sig, n)))
 			// one-item views of a caller-owned collection of FHIR primitive elements: a function that
